@@ -169,30 +169,34 @@ static cbor_item_t* p_item(void) {
     }
     case 'A': case 'a': {
       /* definite arrays are created with capacity = number of elements given */
+      size_t spare = 0; if (*P == '+') { P++; spare = 3; }   /* 'A+[': partially filled definite array */
       const char* save = P; int depth = 0; size_t n = 0; const char* q = P + 1;
-      if (*q != ']') { n = 1; for (; *q; q++) { if (*q == '[' || *q == '(') depth++; else if (*q == ')') depth--; else if (*q == ']') { if (depth == 0) break; depth--; } else if (*q == ',' && depth == 0) n++; } }
+      if (*q != ']') { n = 1; for (; *q; q++) { if (*q == '[' || *q == '(') depth++; else if (*q == ')') depth--; else if (*q == ']') { if (depth == 0) break; depth--; } else if ((*q == ',' || *q == '*') && depth == 0) n++; } }
       P = save;
-      r = c == 'A' ? cbor_new_definite_array(n) : cbor_new_indefinite_array();
+      r = c == 'A' ? cbor_new_definite_array(n + spare) : cbor_new_indefinite_array();
       p_eat('[');
       while (*P != ']' && !perr) {
         cbor_item_t* x = p_item();
         if (!x) { perr = 1; break; }
         if (!cbor_array_push(r, x)) perr = 2;
+        if (*P == '*') { P++; if (!cbor_array_push(r, x)) perr = 2; }   /* 'x*': the same item pushed twice (shared) */
         cbor_decref(&x);
         if (*P == ',') P++;
       }
       p_eat(']'); return r;
     }
     case 'M': case 'm': {
+      size_t spare = 0; if (*P == '+') { P++; spare = 3; }
       const char* save = P; int depth = 0; size_t n = 0; const char* q = P + 1;
-      if (*q != ']') { n = 1; for (; *q; q++) { if (*q == '[' || *q == '(') depth++; else if (*q == ')') depth--; else if (*q == ']') { if (depth == 0) break; depth--; } else if (*q == ',' && depth == 0) n++; } }
+      if (*q != ']') { n = 1; for (; *q; q++) { if (*q == '[' || *q == '(') depth++; else if (*q == ')') depth--; else if (*q == ']') { if (depth == 0) break; depth--; } else if ((*q == ',' || *q == '*') && depth == 0) n++; } }
       P = save;
-      r = c == 'M' ? cbor_new_definite_map(n) : cbor_new_indefinite_map();
+      r = c == 'M' ? cbor_new_definite_map(n + spare) : cbor_new_indefinite_map();
       p_eat('[');
       while (*P != ']' && !perr) {
         cbor_item_t* k = p_item(); p_eat(':'); cbor_item_t* v = p_item();
         if (!k || !v) { perr = 1; break; }
         if (!cbor_map_add(r, (struct cbor_pair){.key = k, .value = v})) perr = 2;
+        if (*P == '*') { P++; if (!cbor_map_add(r, (struct cbor_pair){.key = k, .value = v})) perr = 2; }
         cbor_decref(&k); cbor_decref(&v);
         if (*P == ',') P++;
       }
